@@ -79,8 +79,16 @@ def cond_program(rng, n, depth):
         elif r < 0.95:
             out.append(["use", rng.choice(["A", "B", "C"])])
         else:
-            out.append(["inc", "missing.svh"])
+            out.append(["inc", rng.choice(["missing.svh", "ua.svh", "db.svh", "all.svh", "ua.svh", "db.svh"])])
     return out
+
+
+def headers():
+    """included files whose only effect is on the define table: what they define / undefine must
+    reach the conditionals that follow the `include in the including file"""
+    return {"ua.svh": [pp.item("undef", "A"), pp.nl()],
+            "db.svh": [pp.define("B", None, [pp.bt("lit", "hb")]), pp.nl(), pp.item("undef", "C"), pp.nl()],
+            "all.svh": [pp.item("undefall", ""), pp.nl()]}
 
 
 def nontrivial(prog):
@@ -132,7 +140,9 @@ def run(tier, seed):
         prog = cond_program(rng, rng.randint(4, 40), 0)
         t = tables[rng.randrange(len(tables))]
         items = complete(prog, rng, rng.random() < 0.5)
-        cases.append({"id": nid, "files": {"top.sv": items}, "top": "top.sv", "predef": table(t), "fn": "preprocess"})
+        files = {"top.sv": items}
+        files.update(headers())
+        cases.append({"id": nid, "files": files, "top": "top.sv", "predef": table(t), "fn": "preprocess"})
         by_id[str(nid)] = {"prog": prog, "table": t, "universe": "seeded"}
     vlib.log("C04: %d cases" % len(cases))
     records, hcases, results = ppcheck.build_run_records(cases, "c04", check_origins=False)
